@@ -9,9 +9,11 @@
    CallError | ConnClosed | ServerStops | ProcessDies | Broken.
 
    The full claim C11_contained is proved below for every applicable cell of 7 transports x
-   2 sides x pool off/on x 15 fault classes.  (On the tree as first pinned it was refuted for
-   eight cells; they were repaired in /repo by 6fc72b7, 363c1a3 and 7f6e14b, their replays are
-   kept in corpus/C11-*.json and must now show a contained fault.) *)
+   2 sides x pool off/on x 17 fault classes.  (Cells refuted on earlier trees — decode and
+   IO-plugin panics under mock and fasthttp, conn.Exit's recover one frame too deep, UDP
+   oversize, nested-hostile values, the ExecuteTimeout plugin's goroutine, push subscriber
+   callbacks — were repaired in /repo; their replays are kept in corpus/C11-*.json and must
+   show a contained fault.) *)
 From Coq Require Import String List Bool NArith.
 From HV Require Import Gen.RecoverTable Model.Panic Proofs.PanicProofs.
 Import ListNotations.
@@ -54,9 +56,9 @@ Print Assumptions C11_recover_depth.
 
 (* ------------------------------------------------------------------ the cell space *)
 
-(* the bound: every cell of the type is in the enumerated product of 7 x 2 x 2 x 15 *)
+(* the bound: every cell of the type is in the enumerated product of 7 x 2 x 2 x 17 *)
 Theorem C11_cells_bound :
-  length all_cells = (7 * 2 * 2 * 15)%nat /\ (forall c : cell, In c all_cells) /\
+  length all_cells = (7 * 2 * 2 * 17)%nat /\ (forall c : cell, In c all_cells) /\
   (forall c, In c cells <-> applicable c = true).
 Proof. exact (conj all_cells_length (conj all_cells_complete cells_spec)). Qed.
 Print Assumptions C11_cells_bound.
@@ -72,13 +74,24 @@ Theorem C11_table_accounted :
 Proof. exact table_accounted_ok. Qed.
 Print Assumptions C11_table_accounted.
 
+(* A goroutine from which a user-supplied function can be reached (the table's Runs entries:
+   next(ctx, ...) of a plugin, provided functions, subscriber callbacks, service functions) is
+   never taken as harmless: it has an effective recover on its entry, or it is the goroutine of
+   some fault cell of the model (whose verdict the theorems below state), or it runs the rest
+   of a CLIENT's invoke chain, for which the property names no panicking fault class (Oneway). *)
+Theorem C11_user_code_goroutines_accounted : user_goroutines_accounted table = true.
+Proof. exact user_goroutines_accounted_ok. Qed.
+Print Assumptions C11_user_code_goroutines_accounted.
+
 (* Beyond the named fault classes: every goroutine the library starts in the anchor files
    has an effective recover on its entry function (since 6fc72b7 also the six client
-   send/receive loops) — except six, for which the table shows there is none
+   send/receive loops) — except thirteen, for which the table shows there is none
    (C11_goroutine_entries_refuted is exact): the socket accept loop, the mock transport's
    goroutine, the reverse provider's dispatch goroutines, and (since 4b1f091) the two
    goroutines in which the fasthttp client transport runs the third-party client and releases
-   an abandoned request — no hprose code, no fault class of the property raises a panic there.  C11_unprotected_entries_covered
+   an abandoned request — no hprose code, no fault class of the property raises a panic there;
+   timers, the push long-poll loop and Client.Abort (no user function reachable); and the two
+   that DO run user functions: Oneway's detached client chain and Prosumer.dispatch (stopped in Prosumer.call).  C11_unprotected_entries_covered
    shows that every fault cell raised on one of them is stopped by a frame further in. *)
 Theorem C11_goroutine_entries_partial : forall g, In g known_goroutines -> unprotected g = false ->
   entry_protected table (snd g) = true.
@@ -94,7 +107,7 @@ Print Assumptions C11_goroutine_entries_refuted.
    goroutine for every server-side panic class, the provider's dispatch goroutine) are
    recovered by an inner frame: Service.Handle's or Service.Process' closure, Provider.process. *)
 Theorem C11_unprotected_entries_covered : forall c : cell,
-  applicable c = true -> on_unprotected_goroutine c = true ->
+  applicable c = true -> escaped c = false -> on_unprotected_goroutine c = true ->
   exists f, recovering_frame table c = Some f.
 Proof. exact covered_all. Qed.
 Print Assumptions C11_unprotected_entries_covered.
@@ -177,7 +190,7 @@ Print Assumptions C11_udp_limit.
 
 (* ------------------------------------------------------------------ the property *)
 
-(* EVERY fault cell — 7 transports x {server, client} x pool off/on x 15 fault classes, as far
+(* EVERY fault cell — 7 transports x {server, client} x pool off/on x 17 fault classes, as far
    as the combination exists — has the effect of an error for that call or the loss of that
    one connection: never the end of a serve loop, never the end of the process. *)
 Theorem C11_contained : forall c : cell,
@@ -209,7 +222,7 @@ Proof. reflexivity. Qed.
 (* typical cells, with both contained verdicts *)
 Example contained_call_error :
   let c := mk TTcp Server true FServicePanic in
-  applicable c = true /\ verdict_of table c = CallError /\
+  applicable c = true /\ escaped c = false /\ verdict_of table c = CallError /\
   recovering_frame table c = Some "core.Service.Process$1".
 Proof. vm_compute. repeat split; reflexivity. Qed.
 
@@ -248,12 +261,12 @@ Example hostile_cells :
   format_safe table FNestedHostilePanic = true.
 Proof. vm_compute. repeat split; reflexivity. Qed.
 
-Example cell_counts : length cells = 166%nat /\ length known_escapes = 0%nat.
+Example cell_counts : length cells = 184%nat /\ length known_escapes = 0%nat.
 Proof. vm_compute. split; reflexivity. Qed.
 
 (* the guard of C11_goroutine_entries_partial is met by the goroutines that face the peers *)
 Example protected_goroutines_exist :
   let g := ("socket.Handler.Serve", "socket.Handler.receive") in
   In g known_goroutines /\ unprotected g = false /\ entry_protected table (snd g) = true /\
-  length known_goroutines = 23%nat /\ length unprotected_goroutines = 6%nat.
+  length known_goroutines = 33%nat /\ length unprotected_goroutines = 13%nat.
 Proof. vm_compute. repeat split; try reflexivity. do 2 right. left. reflexivity. Qed.
